@@ -45,7 +45,7 @@ fn kind_of(i: u64) -> Kind {
 }
 
 fn valid_moov(rng: &mut Rng) -> Vec<u8> {
-    let t = TrakSpec { co64: rng.chance(1, 2), entries: vec![rng.below(1000), rng.below(1000)], junk: 0, enc: [Enc::S32; 5] };
+    let t = TrakSpec { co64: rng.chance(1, 2), entries: vec![rng.below(1000), rng.below(1000)], junk: 0, enc: [Enc::S32; 5], dup: 0 };
     bx(b"moov", &moov_payload(rng, &[t], false), Enc::S32)
 }
 
@@ -389,7 +389,10 @@ pub fn run<W: Write>(prop: &str, opts: &Opts, out: &mut W) {
             continue;
         }
         let mut r = rng.fork(i);
-        let big = thorough && i % 400 == 399; // pads of 2-4 GiB: a handful, thorough only
+        // gaps of 16 MiB .. 4 GiB between the rewritten metadata and the media: never padded since the repair of F6 (the
+        // padding is bounded by the metadata), so they cost nothing on the current tree; a change that pads them again
+        // allocates the gap, hence only a share of them is run
+        let big = i % 8 == 7 || thorough && i % 2 == 1;
         let g = remux(&mut r, true, rich || i % 3 == 0);
         let padded_huge = {
             // avoid multi-GiB zero padding outside the dedicated cases: gap between 2^24 and 2^32-9
